@@ -416,12 +416,14 @@ def _show(val):
 
 def boundary_domain(quick):
     cases = []
-    dh_kex = ["diffie-hellman-group1-sha1", "diffie-hellman-group14-sha256"] if quick else DH_KEX
+    dh_kex = ["diffie-hellman-group1-sha1"] if quick else DH_KEX
     for role in ("client", "server"):
         for kex in dh_kex + GEX_KEX[: 1 if quick else 2]:
             for spec in DH_BOUNDARY:
                 cases.append({"role": role, "kex": kex, "value": list(spec)})
         if quick:
+            for spec in (("p", 1), ("0", 0), ("p", 0), ("-p", 1), ("p", -1), ("2p", 1)):
+                cases.append({"role": role, "kex": "diffie-hellman-group14-sha256", "value": list(spec)})
             for kex in ("diffie-hellman-group14-sha1", "diffie-hellman-group16-sha512", GEX_KEX[1]):
                 for spec in (("p", 1), ("0", 0), ("p", 0)):
                     cases.append({"role": role, "kex": kex, "value": list(spec)})
